@@ -42,7 +42,11 @@ def main():
     meta = core.ensure_extracted()
     rc_holder = {}
     def hook(rep): native_counters(rep)
-    return file_common.run_property('C05', post_hook=hook)
+    def extra(info):
+        # the container payload size the counters add up is the stream's gcount: its contract (C15 read) is discharged here too
+        from checks import c15
+        return [core.borrow(j, 'C15', 'C05') for j in c15.jobs(1, 600) if j.name.split('UncompressedFile_')[-1] == 'read']
+    return file_common.run_property('C05', post_hook=hook, extra_jobs=extra)
 
 
 if __name__ == '__main__':
